@@ -13,8 +13,7 @@ import (
 
 // Poly1305 is an uninterpreted function of (key, message) here (its arithmetic is the subject of
 // C04); natively the real function runs.
-//
-//verif:stub golang.org/x/crypto/internal/poly1305.Sum
+// Stub of internal/poly1305.Sum, registered through zz_verif_stubs.go (shared with C02).
 func c10StubPolySum(out *[16]byte, m []byte, key *[32]byte) {
 	if !verifrt.Symbolic() {
 		poly1305.Sum(out, m, key)
@@ -23,7 +22,7 @@ func c10StubPolySum(out *[16]byte, m []byte, key *[32]byte) {
 	copy(out[:], verifrt.UFBytes("poly1305", 16, key[:], m))
 }
 
-//verif:stub golang.org/x/crypto/internal/poly1305.Verify
+// Stub of internal/poly1305.Verify, registered through zz_verif_stubs.go.
 func c10StubPolyVerify(mac *[16]byte, m []byte, key *[32]byte) bool {
 	if !verifrt.Symbolic() {
 		return poly1305.Verify(mac, m, key)
@@ -39,7 +38,7 @@ func c10StubPolyVerify(mac *[16]byte, m []byte, key *[32]byte) bool {
 // b = 0, 1, ... Otherwise (and natively) the real functions run.
 var c10AbstractSalsa bool
 
-//verif:stub golang.org/x/crypto/salsa20/salsa.HSalsa20
+// Stub of salsa.HSalsa20 (abstract branch), registered through zz_verif_stubs.go.
 func c10StubHSalsa20(out *[32]byte, in *[16]byte, k *[32]byte, c *[16]byte) {
 	if !verifrt.Symbolic() || !c10AbstractSalsa {
 		salsa.HSalsa20(out, in, k, c)
@@ -48,7 +47,7 @@ func c10StubHSalsa20(out *[32]byte, in *[16]byte, k *[32]byte, c *[16]byte) {
 	copy(out[:], verifrt.UFBytes("hsalsa20", 32, in[:], k[:], c[:]))
 }
 
-//verif:stub golang.org/x/crypto/salsa20/salsa.XORKeyStream
+// Stub of salsa.XORKeyStream (abstract branch), registered through zz_verif_stubs.go.
 func c10StubXORKeyStream(out, in []byte, counter *[16]byte, key *[32]byte) {
 	if !verifrt.Symbolic() || !c10AbstractSalsa {
 		salsa.XORKeyStream(out, in, counter, key)
